@@ -1077,6 +1077,7 @@ fn interesting_ints(o: &mut Out, ity: &str, random: usize) -> Vec<String> {
 /// X9 + stratified wider integers
 pub fn g_from_int(o: &mut Out) {
     for ty in TYPES {
+        o.put(&format!("zero/{}", ty), format!("zero {}", ty));
         for ity in ["i8", "u8"] {
             let (min, max) = int_bounds(ity);
             for v in min..=(max as i128) {
@@ -1235,6 +1236,55 @@ pub fn g_from_float(o: &mut Out, types: &[&str]) {
                 let r = ryu_text(fty, b);
                 let bh = if fty == "f32" { format!("{:08x}", b) } else { format!("{:016x}", b) };
                 o.put(&format!("from_float-{}/{}", fty, ty), format!("from_float {} {} {} {}", ty, fty, bh, tx(&r)));
+            }
+        }
+    }
+}
+
+/// C17 for integers and floats: the `TryFrom` impls report a refusal as an error whose text names widths.
+/// Integers of every digit count (10^k - 1, 10^k, 10^k + 1, random) and floats whose shortest digits do or do not fit,
+/// through the trait impls of the bounded types (the inherent `from_*` methods return `Option` and carry no text).
+pub fn g_conv_errors(o: &mut Out) {
+    let p10 = |k: u32| -> u128 { 10u128.pow(k) };
+    for ty in ["b32", "b64", "b128", "dyn"] {
+        for ity in ["i32", "u32", "i64", "u64", "i128", "u128"] {
+            let (min, max) = int_bounds(ity);
+            let mut vals: Vec<String> = vec![];
+            for k in 1..=38u32 {
+                for v in [p10(k) - 1, p10(k), p10(k) + 1, p10(k) + (o.rng.next() as u128 * o.rng.next() as u128) % p10(k)] {
+                    if v <= max {
+                        vals.push(v.to_string());
+                    }
+                    if min < 0 && v <= min.unsigned_abs() {
+                        vals.push(format!("-{}", v));
+                    }
+                }
+            }
+            vals.push(max.to_string());
+            vals.push(min.to_string());
+            for v in vals {
+                writeln!(o.w, "conv-err-int@trait/{}\tfrom_int@t {} {} {}", ty, ty, ity, v).unwrap();
+            }
+        }
+        for fty in ["f32", "f64"] {
+            let mut bits: Vec<u64> = vec![];
+            for _ in 0..o.q(300, 5000) {
+                bits.push(if fty == "f32" { o.rng.next() & 0xffff_ffff } else { o.rng.next() });
+            }
+            // short decimals scaled over the whole exponent range: few digits, wide exponents
+            for m in [1.0f64, 1.5, 12345678.0, 1234567.0, 9999999.0, 1234567890123456.0, 12345678901234567.0, 0.1, 0.3] {
+                for e in [-320i32, -300, -101, -95, -45, -38, -7, -1, 0, 1, 7, 15, 16, 17, 20, 21, 22, 38, 90, 96, 97, 300, 308] {
+                    let f = m * 10f64.powi(e);
+                    bits.push(if fty == "f32" { (f as f32).to_bits() as u64 } else { f.to_bits() });
+                }
+            }
+            for b in bits {
+                let r = ryu_text(fty, b);
+                if r.is_empty() {
+                    continue;
+                }
+                let bh = if fty == "f32" { format!("{:08x}", b) } else { format!("{:016x}", b) };
+                writeln!(o.w, "conv-err-float@trait/{}\tfrom_float@t {} {} {} {}", ty, ty, fty, bh, tx(&r)).unwrap();
             }
         }
     }
